@@ -236,6 +236,8 @@ def do_action(obj, root, a, emb, beh=None, env=None):
         kw = {}
         if a["mode"] == "dflt":
             kw = {"allocate": False, "default": 7}
+        elif a["mode"] == "dflt0":
+            kw = {"allocate": False, "default": 0 if (len(a["pt"]) + a["pt"][0]) % 2 else 0.0}        # a caller-supplied default that happens to be falsy
         if a["sp"] != -1:
             # a saved position may be given as a plain int or boxed (what getSavedPos-style code passes around)
             kw["start_pos"] = Payload(a["sp"]) if (a["sp"] + len(a["pt"]) + len(a["path"])) % 2 else a["sp"]
@@ -260,6 +262,16 @@ def do_action(obj, root, a, emb, beh=None, env=None):
             r += a["v"]
         else:
             r *= a["v"]
+    elif op == "poswrite":
+        # the position route to the same payload: p = f.getPositionRef(c); f[p] op= v  (getitem, the element's in-place operator, setitem)
+        f = fiber_at(root, a["pt"][:-1])
+        p = f.getPositionRef(a["pt"][-1])
+        if a["kind"] == "assign":
+            f[p] <<= a["v"]
+        elif a["kind"] == "add":
+            f[p] += a["v"]
+        else:
+            f[p] *= a["v"]
     elif op == "get":
         obj.getPayload(*a["pt"])
     elif op == "obs":
